@@ -169,7 +169,8 @@ class C02(Check):
                    "row j IS the term X(t_j), that the origin row is x0, that the row count is right and that the callable "
                    "handed to the integrator is the model's f/Jacobian in the argument order that integrator expects. "
                    "Counterexamples are replayed with real floats and the real Fortran integrators against a closed-form / "
-                   "tight-tolerance reference solution.")
+                   "tight-tolerance reference solution.  Requested times are given as symbolic reals (list/tuple/array/scalar) and as TYPED integer grids "
+                   "(int array/list/tuple with a fractional t0): the first evaluation handed to the integrator must be at the supplied t0.")
     stubs = ["scipy.integrate.ode (contract, measured buffer policy)", "scipy.integrate.odeint (contract)", "numpy.linalg.eig (free real eigenvalues)"]
     assumptions = ["scipy's integrators return the ODE solution at the requested time to their tolerance (Fortran; not decided here)",
                    "floats modelled as reals; finite inputs; strictly increasing time grid",
